@@ -23,6 +23,7 @@ type connInfo struct {
 	localReq  bool // a local close was requested for it
 	traffic   int
 	badAfter  bool
+	unflushed bool     // ReadFrom without a following Flush: outside the property's write operations
 	untracked bool     // an asynchronous write without callback was issued: effect point unknown to the oracle
 }
 
@@ -181,7 +182,7 @@ func (h *handler) onUDP(c gnet.Conn) gnet.Action {
 
 // consumed + InboundBuffered must equal the bytes delivered by the kernel so far
 func (h *handler) checkInbound(ci *connInfo, where string) {
-	if ci.udp {
+	if ci.udp || ci.closed {
 		return
 	}
 	h.rec.mu.Lock()
@@ -193,7 +194,7 @@ func (h *handler) checkInbound(ci *connInfo, where string) {
 }
 
 func (h *handler) expectConsumed(ci *connInfo, got []byte, call string) {
-	if ci.udp {
+	if ci.udp || ci.closed {
 		return
 	}
 	h.rec.mu.Lock()
@@ -291,7 +292,7 @@ func (h *handler) oneCall(ci *connInfo, cb string) {
 	case k < 75:
 		h.doCall(ci, "write", 0, h.payload(wsz), false)
 	case k < 82:
-		h.doCall(ci, "writev", h.rnd.Pick([]int{0, 1, 2, 3, 5}), h.payload(wsz), false)
+		h.doCall(ci, "writev", h.rnd.Pick([]int{0, 1, 2, 3, 5, 5, 1025, 1500}), h.payload(wsz), false)
 	case k < 85:
 		h.doCall(ci, "flush", 0, nil, false)
 	case k < 89:
@@ -305,7 +306,10 @@ func (h *handler) oneCall(ci *connInfo, cb string) {
 	case k < 96+h.cfg.pElClose:
 		h.doCall(ci, "elclose", 0, nil, false)
 	default:
-		h.doCall(ci, "readfrom", 0, h.payload(h.rnd.Pick([]int{1, 1, 100, 5000})), false)
+		h.doCall(ci, "readfrom", 0, h.payload(h.rnd.Pick([]int{0, 1, 100, 5000, wsz})), false)
+		if h.rnd.Chance(85) {
+			h.doCall(ci, "flush", 0, nil, false)
+		}
 	}
 }
 
@@ -426,11 +430,15 @@ func (h *handler) doCall(ci *connInfo, call string, n int, data []byte, cb bool)
 			es = "shutdown"
 		}
 		rec.Obs(tr.L("hr", "flush", es))
+		ci.unflushed = false
 	case "readfrom":
 		rec.Op(tr.L("h", "readfrom", tr.X(data)))
 		m, err := c.ReadFrom(bytes.NewReader(data))
 		rec.Obs(tr.L("hr", "readfrom", tr.I(int(m)), errSym(err)))
 		ci.accepted = append(ci.accepted, data...)
+		if len(data) > 0 {
+			ci.unflushed = true
+		}
 	case "asyncwrite":
 		rec.Op(tr.L("h", "asyncwrite", tr.X(data), tr.B(cb)))
 		err := c.AsyncWrite(data, h.acb("write", ci, cb, data))
